@@ -5,7 +5,7 @@ import ast
 
 from ..conform import NF, differing_operands, load_spec, show
 from ..lang import Unsupported
-from ..model import AnalysisError, body_wo_doc, live_body, norm
+from ..model import AnalysisError, body_wo_doc, live_body, norm, walk_no_nested
 
 META = {
     'level': 'proof',
@@ -18,7 +18,8 @@ META = {
         'is literally the expression the property equates it with, conformance implies the '
         'property for all operands (including the exception raised), modulo operator dispatch.  '
         'Identity shortcuts (`if other is self`) in comparisons are violations (NaN); witness operands include 2**53+1 so that float() detours on int values show.'
-        " Also: the unit test of _cmp_op, whatever its spelling, has the decision table of `the units differ` over the units None, '', 'kg', 'm'."),
+        " Also: the unit test of _cmp_op, whatever its spelling, has the decision table of `the units differ` over the units None, '', 'kg', 'm'."
+        ' Also: no exact-type test selects plain numbers in _cmp_op (bool is an int subclass); no binary dunder of the value is called directly.'),
     'rule_text': 'one obligation per required dunder method of Qty + _cmp_op paths + class-structure facts; '
                  'discharged by normal-form equality; distinct = distinct (rule, obligation) pairs',
     'trusted_base': ['Python data model dispatch of binary/reflected/unary operators and rich comparisons'],
@@ -215,6 +216,7 @@ def run(ctx):
             ctx.error('C20.D1', 'Qty.%s: operator argument %s not recognised' % (name, show(opf)))
 
     _cmp_op(ctx, methods)
+    _direct_dunders(ctx, methods)
     _structure(ctx, m, spec)
     ctx.count('operator methods matched', matched)
     ctx.floor('Qty operator methods in normal form', matched, 38)
@@ -229,6 +231,32 @@ def _replace(nf, a, b):
     if isinstance(nf, list):
         return [_replace(x, a, b) for x in nf]
     return nf
+
+
+BINARY_DUNDERS = {'__add__', '__sub__', '__mul__', '__truediv__', '__floordiv__', '__mod__', '__divmod__', '__pow__', '__lshift__',
+                  '__rshift__', '__and__', '__or__', '__xor__', '__matmul__', '__lt__', '__le__', '__gt__', '__ge__', '__eq__',
+                  '__ne__', '__div__'}
+BINARY_DUNDERS |= {'__r' + d[2:] for d in list(BINARY_DUNDERS)}
+
+
+def _direct_dunders(ctx, methods):
+    """`v.__pow__(x)` is not `v ** x`: the operator tries type(v).__pow__ AND, when that answers NotImplemented, the
+    reflected method of the other operand; the direct call just hands the NotImplemented back (int.__pow__(2, 0.5))."""
+    n = 0
+    for name, fn in sorted(methods.items()):
+        for c in walk_no_nested(fn):
+            if isinstance(c, ast.Call) and isinstance(c.func, ast.Attribute) and c.func.attr in BINARY_DUNDERS and c.args \
+                    and norm(c.func.value) in ('self.value', '%s.value' % (fn.args.args[0].arg if fn.args.args else 'self')):
+                n += 1
+                ctx.violation('C20.D1', '%s::Qty.%s' % (F, name), norm(c),
+                              'Quantity(2) ** 0.5 (an int value with a float operand; likewise Quantity(4) ** Quantity(0.5)): '
+                              'int.%s(2, 0.5) answers NotImplemented -- the operator would go on to float.__r%s__, the direct '
+                              'call returns the NotImplemented, and the expression ends in TypeError where 2 ** 0.5 is 1.414...'
+                              % (c.func.attr, c.func.attr.strip('_')),
+                              'Qty.%s calls the dunder method of the value directly (`%s`), skipping the reflected-operand step '
+                              'of the operator protocol' % (name, norm(c)[:50]), file=F, line=c.lineno, engine='E9')
+    if not n:
+        ctx.ob('C20.D1', 'no method of Qty calls a binary dunder of its value directly', True, F)
 
 
 UNIT_DOMAIN = (None, '', 'kg', 'm')
@@ -305,6 +333,15 @@ def _cmp_op(ctx, methods):
                                   "and None all to '')" % mo.group(1),
                                   'Qty._cmp_op compares units through %s(), a many-to-one mapping, so differing units can pass the '
                                   'unit check' % mo.group(1), file=F, line=fn.lineno, engine='E9')
+                    return
+                mo2 = _re.match(r'^type\((\w+)\) (in|is|==|not in|is not|!=) (.+)$', text)
+                if mo2 and mo2.group(1) == o:
+                    ctx.violation('C20.D1', '%s::Qty._cmp_op' % F, text,
+                                  'Quantity(1) == True (v == True is True for v = 1) and Quantity(0) < True: bool is a SUBCLASS of int, '
+                                  'the exact-type test `%s` does not recognise it as a plain number, and the comparison falls '
+                                  'through to another arm (NotImplemented / TypeError) instead of comparing the value' % text,
+                                  'Qty._cmp_op selects plain numbers by exact type (`%s`), which excludes bool and every other '
+                                  'numeric subclass' % text, file=F, line=fn.lineno, engine='E9')
                     return
                 verdict = _unit_predicate(ctx, fn, text, s, o)
                 if verdict == 'differ':
